@@ -126,13 +126,21 @@ def _dotted(relpath: str) -> str:
     return p.replace("/", ".")
 
 
+# Parsed modules are immutable for the analyses (only caches are attached to
+# nodes), so repos that differ in one overlaid file share the other modules.
+_PARSE_CACHE: Dict[tuple, "Module"] = {}
+
+
 class Repo:
     """All analysed modules of one source tree."""
 
     SCOPES = ("src/sqlfluff", "plugins")
 
-    def __init__(self, root: str = "/repo"):
+    def __init__(self, root: str = "/repo", overlay: Optional[Dict[str, str]] = None):
+        """``overlay`` maps relative paths to replacement text (self-test variants:
+        the analysed program is the tree at ``root`` with these files substituted)."""
         self.root = os.path.abspath(root)
+        self.overlay = dict(overlay or {})
         self.modules: Dict[str, Module] = {}
         self.by_dotted: Dict[str, Module] = {}
         h = hashlib.sha256()
@@ -153,15 +161,22 @@ class Repo:
                         continue
                     full = os.path.join(dirpath, fn)
                     rel = os.path.relpath(full, self.root)
-                    with open(full, encoding="utf-8") as f:
-                        text = f.read()
+                    if rel in self.overlay:
+                        text = self.overlay[rel]
+                    else:
+                        with open(full, encoding="utf-8") as f:
+                            text = f.read()
                     h.update(rel.encode())
                     h.update(text.encode())
                     n_lines += text.count("\n")
-                    try:
-                        m = Module(self.root, rel, text)
-                    except SyntaxError as e:
-                        raise AnalysisError(f"cannot parse {rel}: {e}")
+                    ck = (self.root, rel, hashlib.sha256(text.encode()).digest())
+                    m = _PARSE_CACHE.get(ck)
+                    if m is None:
+                        try:
+                            m = Module(self.root, rel, text)
+                        except SyntaxError as e:
+                            raise AnalysisError(f"cannot parse {rel}: {e}")
+                        _PARSE_CACHE[ck] = m
                     self.modules[rel] = m
                     self.by_dotted[m.dotted] = m
         self.digest = h.hexdigest()
